@@ -51,27 +51,30 @@ type fault struct {
 }
 
 type plan struct {
-	entry      string // MapReduce, MapReduceVoid, MapReduceChan
-	nItems     int
-	workers    int // 0 = option not given (default 16)
-	fan        int
-	mapFaults  [2]fault
-	redFault   fault // none, cancelErr, cancelNil, panic, nooutput
-	genPanicAt int   // -1 = never
-	ctxMode    string
-	ctxDelayUs int
-	jitter     int
-	yieldSeed  uint64
+	entry          string // MapReduce, MapReduceVoid, MapReduceChan
+	nItems         int
+	workers        int // 0 = option not given (default 16)
+	fan            int
+	mapFaults      [2]fault
+	redFault       fault // none, cancelErr, cancelNil, panic, nooutput
+	genPanicAt     int   // -1 = never
+	genStallAt     int   // -1 = never; else the generator waits for the harness' gate before producing item i (or before returning)
+	redEarlyAt     int   // -1 = the reducer writes its output after the pipe is closed; else after that many values ("first results win")
+	redEarlyReturn bool  // after an early output the reducer returns instead of reading the rest of the pipe
+	ctxMode        string
+	ctxDelayUs     int
+	jitter         int
+	yieldSeed      uint64
 }
 
 func (p plan) String() string {
-	return fmt.Sprintf("%s items=%d workers=%d fan=%d map=%v red=%v genPanicAt=%d ctx=%s/%dus jitter=%d",
-		p.entry, p.nItems, p.workers, p.fan, p.mapFaults, p.redFault, p.genPanicAt, p.ctxMode, p.ctxDelayUs, p.jitter)
+	return fmt.Sprintf("%s items=%d workers=%d fan=%d map=%v red=%v genPanicAt=%d genStallAt=%d redEarly=%d/%v ctx=%s/%dus jitter=%d",
+		p.entry, p.nItems, p.workers, p.fan, p.mapFaults, p.redFault, p.genPanicAt, p.genStallAt, p.redEarlyAt, p.redEarlyReturn, p.ctxMode, p.ctxDelayUs, p.jitter)
 }
 
 func (p plan) anyFault() bool {
 	return p.mapFaults[0].kind != "none" || p.mapFaults[1].kind != "none" || p.redFault.kind != "none" ||
-		p.genPanicAt >= 0 || p.ctxMode != "none"
+		p.genPanicAt >= 0 || p.ctxMode != "none" || p.redEarlyAt >= 0
 }
 
 func genPlan(t *rapid.T) plan {
@@ -90,8 +93,28 @@ func genPlan(t *rapid.T) plan {
 	p.ctxMode = rapid.SampledFrom([]string{"none", "none", "timeout", "cancel", "preCancelled"}).Draw(t, "ctx")
 	p.ctxDelayUs = rapid.IntRange(0, 3000).Draw(t, "ctxDelayUs")
 	p.jitter = rapid.IntRange(0, 3).Draw(t, "jitter")
+	// time and order: a generator that is slow to produce its next item, a reducer that hands over
+	// its result before it has seen everything
+	p.genStallAt = rapid.SampledFrom([]int{-1, -1, -1, -1, 0, 1, 2, 5}).Draw(t, "genStallAt")
+	if p.entry == "MapReduceChan" {
+		p.genStallAt = -1
+	}
+	p.redEarlyAt = rapid.SampledFrom([]int{-1, -1, -1, -1, 0, 0, 1, 3}).Draw(t, "redEarlyAt")
+	p.redEarlyReturn = rapid.Bool().Draw(t, "redEarlyReturn")
+	if p.entry == "MapReduceVoid" || p.redFault.kind == "nooutput" {
+		p.redEarlyAt = -1
+	}
 	return p
 }
+
+// c10Margin: how long a reducer with an early output waits after a cancel call has begun before it
+// hands its output over (the call must then report the cancellation).  The only thing that has to
+// happen inside that span on correct code is the first statement of cancel.
+const c10Margin = 400 * time.Millisecond
+
+// c10PanicMargin: a panic raised at least this long before the call returned must have been seen by it
+// (publishing a recovered panic takes a few instructions).
+const c10PanicMargin = 100 * time.Millisecond
 
 type outcome struct {
 	val int
@@ -140,6 +163,34 @@ func runPlan(t *rapid.T, st *verifkit.Stats, p plan) {
 	var reduced []int
 	var written []int
 	var cancelErrs []error
+	// early output: wall-clock instant (ns) of the first cancel invocation, the value handed to the
+	// writer, and whether that happened at least c10Margin after a cancel call had begun
+	var cancelInvokedAt, outWritten, panicAtNs int64
+	var outWrittenSet, lateOutput, panicAfterOutput int32
+	// a user function about to panic after the reducer's (early) output was handed over gives the
+	// caller a moment to take that output first: the panic must still reach the caller
+	afterOutput := func() {
+		if atomic.LoadInt32(&outWrittenSet) == 1 {
+			time.Sleep(2 * time.Millisecond)
+			atomic.StoreInt32(&panicAfterOutput, 1)
+		}
+		atomic.CompareAndSwapInt64(&panicAtNs, 0, time.Now().UnixNano())
+	}
+	// ... and a function that cancels after such a panic lets the panic get published first
+	// (c10PanicMargin), so that "panicked, then cancelled, then the call returned" is an order the
+	// oracle may judge
+	beforeCancel := func() {
+		if atomic.LoadInt32(&panicAfterOutput) == 1 {
+			time.Sleep(c10PanicMargin + 10*time.Millisecond)
+		}
+	}
+	mapperCancels := false
+	for _, f := range p.mapFaults {
+		if strings.HasPrefix(f.kind, "cancel") && f.at < p.nItems && (p.genStallAt < 0 || f.at < p.genStallAt) {
+			mapperCancels = true
+		}
+	}
+	stampCancel := func() { atomic.CompareAndSwapInt64(&cancelInvokedAt, 0, time.Now().UnixNano()) }
 	opts := []mr.Option{mr.WithContext(ctx)}
 	if p.workers != 0 {
 		opts = append(opts, mr.WithWorkers(p.workers))
@@ -174,13 +225,21 @@ func runPlan(t *rapid.T, st *verifkit.Stats, p plan) {
 	}
 	generate := func(src chan<- int) {
 		for i := 0; i < p.nItems; i++ {
+			if i == p.genStallAt {
+				<-release
+			}
 			if i == p.genPanicAt {
+				afterOutput()
 				atomic.StoreInt32(&panicRaised, 1)
 				panic("gen-panic")
 			}
 			src <- i
 		}
+		if p.genStallAt >= p.nItems {
+			<-release
+		}
 		if p.genPanicAt >= p.nItems {
+			afterOutput()
 			atomic.StoreInt32(&panicRaised, 1)
 			panic("gen-panic")
 		}
@@ -212,6 +271,8 @@ func runPlan(t *rapid.T, st *verifkit.Stats, p plan) {
 				cancelErrs = append(cancelErrs, e)
 				mu.Unlock()
 				noteFault()
+				beforeCancel()
+				stampCancel()
 				cancelFn(e)
 				return
 			case "cancelNil":
@@ -219,10 +280,13 @@ func runPlan(t *rapid.T, st *verifkit.Stats, p plan) {
 				cancelErrs = append(cancelErrs, mr.ErrCancelWithNil)
 				mu.Unlock()
 				noteFault()
+				beforeCancel()
+				stampCancel()
 				cancelFn(nil)
 				return
 			case "panic":
 				noteFault()
+				afterOutput()
 				atomic.StoreInt32(&panicRaised, 1)
 				panic(fmt.Sprintf("map-panic-%d", item))
 			case "stall":
@@ -237,27 +301,37 @@ func runPlan(t *rapid.T, st *verifkit.Stats, p plan) {
 			w.Write(v)
 		}
 	}
-	reducerBody := func(pipe <-chan int, cancelFn func(error)) (emit bool) {
+	reducerBody := func(pipe <-chan int, cancelFn func(error), early func(seen int) (stop bool)) (emit bool) {
 		n := 0
 		for v := range pipe {
 			mu.Lock()
 			reduced = append(reduced, v)
 			mu.Unlock()
+			if n == p.redEarlyAt && early != nil {
+				if early(n + 1) {
+					return false
+				}
+			}
 			if n == p.redFault.at {
 				switch p.redFault.kind {
 				case "cancelErr":
 					mu.Lock()
 					cancelErrs = append(cancelErrs, errRed)
 					mu.Unlock()
+					beforeCancel()
+					stampCancel()
 					cancelFn(errRed)
 					return false
 				case "cancelNil":
 					mu.Lock()
 					cancelErrs = append(cancelErrs, mr.ErrCancelWithNil)
 					mu.Unlock()
+					beforeCancel()
+					stampCancel()
 					cancelFn(nil)
 					return false
 				case "panic":
+					afterOutput()
 					atomic.StoreInt32(&panicRaised, 1)
 					panic("red-panic")
 				}
@@ -267,15 +341,39 @@ func runPlan(t *rapid.T, st *verifkit.Stats, p plan) {
 		return p.redFault.kind != "nooutput"
 	}
 	reducer := func(pipe <-chan int, w mr.Writer[int], cancelFn func(error)) {
-		if reducerBody(pipe, cancelFn) {
+		wrote := false
+		write := func(v int) {
+			wrote = true
+			atomic.StoreInt64(&outWritten, int64(v))
+			atomic.StoreInt32(&outWrittenSet, 1)
+			w.Write(v)
+		}
+		early := func(seen int) bool {
+			// the order that matters - a cancel call has begun, then the output is handed over - is
+			// constructed, not waited for: if a mapper is going to cancel, give it a moment to get there
+			for i := 0; mapperCancels && i < 150 && atomic.LoadInt64(&cancelInvokedAt) == 0; i++ {
+				time.Sleep(200 * time.Microsecond)
+			}
+			if at := atomic.LoadInt64(&cancelInvokedAt); at != 0 {
+				// a cancel call began earlier: let c10Margin pass, so that "the call to cancel had been
+				// made when the output was handed over" does not hang on a few instructions
+				if d := c10Margin - time.Since(time.Unix(0, at)); d > 0 {
+					time.Sleep(d)
+				}
+				atomic.StoreInt32(&lateOutput, 1)
+			}
+			write(seen)
+			return p.redEarlyReturn
+		}
+		if reducerBody(pipe, cancelFn, early) && !wrote {
 			mu.Lock()
 			n := len(reduced)
 			mu.Unlock()
-			w.Write(n)
+			write(n)
 		}
 	}
 	voidReducer := func(pipe <-chan int, cancelFn func(error)) {
-		reducerBody(pipe, cancelFn)
+		reducerBody(pipe, cancelFn, nil)
 	}
 	resCh := make(chan outcome, 1)
 	go func() {
@@ -309,13 +407,30 @@ func runPlan(t *rapid.T, st *verifkit.Stats, p plan) {
 			cancel()
 		}()
 	}
-	stallPlanned := false
+	stallPlanned := p.genStallAt >= 0
+	// how long the gate stays shut: a call that waits for a slow generator cannot return before the
+	// gate opens, so a short while is enough; 250 ms for a stalled mapper (the call may return
+	// without it); and for a slow generator plus an early output plus a cancelling function, long
+	// enough for the reducer's margin
+	patience := 40 * time.Millisecond
+	cancelPlanned := strings.HasPrefix(p.redFault.kind, "cancel")
 	for _, f := range p.mapFaults {
 		if f.kind == "stall" && f.at < p.nItems {
 			stallPlanned = true
+			patience = 250 * time.Millisecond
+		}
+		if strings.HasPrefix(f.kind, "cancel") && f.at < p.nItems {
+			cancelPlanned = true
 		}
 	}
+	if !stallPlanned {
+		patience = 250 * time.Millisecond
+	}
+	if p.genStallAt >= 0 && p.redEarlyAt >= 0 && cancelPlanned {
+		patience = 3 * c10Margin
+	}
 	var o outcome
+	var returnedAtNs int64
 	released := false
 	returnedWhileStalled := false
 	select {
@@ -323,7 +438,7 @@ func runPlan(t *rapid.T, st *verifkit.Stats, p plan) {
 		if stallPlanned {
 			returnedWhileStalled = true
 		}
-	case <-time.After(250 * time.Millisecond):
+	case <-time.After(patience):
 		if stallPlanned {
 			// the call is (legitimately) waiting for the stalled mapper: release it
 			close(release)
@@ -335,6 +450,7 @@ func runPlan(t *rapid.T, st *verifkit.Stats, p plan) {
 			t.Fatalf("DEADLOCK: the call did not return within 20 s although every gate is open; plan: %v\ncore/mr goroutines:\n%s", p, dump(mrGoroutines(), baseline))
 		}
 	}
+	returnedAtNs = time.Now().UnixNano()
 	if !released {
 		close(release)
 	}
@@ -431,6 +547,9 @@ func runPlan(t *rapid.T, st *verifkit.Stats, p plan) {
 			t.Fatalf("a panic surfaced that no user function raised: %v; plan: %v", o.pan, p)
 		}
 		st.Class("outcome:panic")
+		if atomic.LoadInt32(&panicAfterOutput) == 1 {
+			st.Class("outcome:panic-raised-after-the-output-was-handed-over")
+		}
 	case o.err != nil:
 		ok := false
 		if p.ctxMode != "none" && (errors.Is(o.err, context.DeadlineExceeded) || errors.Is(o.err, context.Canceled)) {
@@ -455,16 +574,37 @@ func runPlan(t *rapid.T, st *verifkit.Stats, p plan) {
 		// no planned fault took effect before the call completed: the normal result must be right,
 		// and it is legal only if no user function panicked and nobody cancelled
 		if atomic.LoadInt32(&panicRaised) == 1 {
-			t.Fatalf("SWALLOWED PANIC: a user function panicked but the call returned normally (%v, nil); plan: %v", o.val, p)
+			// with an early output the caller's result is settled while user functions are still running,
+			// and something else (a cancel) may end the call at the very moment a function panics: only a
+			// panic raised at least c10PanicMargin before the call returned is judged
+			at := atomic.LoadInt64(&panicAtNs)
+			// (if nobody cancelled and the context cannot end, only the reducer's goroutine ends the call,
+			// after the reducer has returned and every mapper has finished: every panic is older than that)
+			nothingElseEndsTheCall := atomic.LoadInt64(&cancelInvokedAt) == 0 && p.ctxMode == "none"
+			if p.redEarlyAt < 0 || nothingElseEndsTheCall || (at != 0 && time.Duration(returnedAtNs-at) >= c10PanicMargin) {
+				t.Fatalf("SWALLOWED PANIC: a user function panicked but the call returned normally (%v, nil); plan: %v", o.val, p)
+			}
+			st.Class("panic-concurrent-with-the-return (not judged)")
 		}
-		if len(cancelErrs) > 0 {
+		if len(cancelErrs) > 0 && p.redEarlyAt < 0 {
+			// (the reducer writes after the pipe is closed, i.e. after every mapper - the cancelling one
+			// included - has returned)
 			t.Fatalf("cancel(%v) was called but the call returned normally (%v, nil); plan: %v", cancelErrs, o.val, p)
 		}
+		if atomic.LoadInt32(&lateOutput) == 1 {
+			t.Fatalf("cancel(%v) had been called at least %v before the reducer handed over its output, but the call returned normally (%v, nil) "+
+				"instead of an error passed to cancel; plan: %v", cancelErrs, c10Margin, o.val, p)
+		}
 		if p.entry != "MapReduceVoid" {
-			sort.Ints(reduced)
-			if o.val != len(reduced) {
+			if atomic.LoadInt32(&outWrittenSet) == 0 || int64(o.val) != atomic.LoadInt64(&outWritten) {
+				t.Fatalf("normal result %d, the reducer's output was %d (written: %v); plan: %v", o.val, atomic.LoadInt64(&outWritten), atomic.LoadInt32(&outWrittenSet) == 1, p)
+			}
+			if p.redEarlyAt < 0 && o.val != len(reduced) {
 				t.Fatalf("normal result %d but the reducer had received %d values; plan: %v", o.val, len(reduced), p)
 			}
+		}
+		if p.redEarlyAt >= 0 && atomic.LoadInt32(&outWrittenSet) == 1 {
+			st.Class("outcome:early-output-returned")
 		}
 		st.Class("outcome:fault-not-reached")
 	}
@@ -659,11 +799,11 @@ func TestVerifC10RegressD6(t *testing.T) {
 	rapid.Check(t, func(t *rapid.T) {
 		st.Eval()
 		// (a) mapper cancels, later another mapper panics
-		p := plan{entry: "MapReduce", nItems: 6, workers: 4, fan: 1, genPanicAt: -1, ctxMode: "none",
+		p := plan{entry: "MapReduce", nItems: 6, workers: 4, fan: 1, genStallAt: -1, redEarlyAt: -1, genPanicAt: -1, ctxMode: "none",
 			mapFaults: [2]fault{{"cancelErr", 0}, {"panic", 2}}, redFault: fault{"none", 0}, jitter: rapid.IntRange(0, 3).Draw(t, "jitter")}
 		runPlan(t, st, p)
 		// (b) generator panics while the context is already done
-		p = plan{entry: "MapReduce", nItems: 3, workers: 2, fan: 1, genPanicAt: 1, ctxMode: "preCancelled",
+		p = plan{entry: "MapReduce", nItems: 3, workers: 2, fan: 1, genStallAt: -1, redEarlyAt: -1, genPanicAt: 1, ctxMode: "preCancelled",
 			mapFaults: [2]fault{{"none", 0}, {"none", 0}}, redFault: fault{"none", 0}, jitter: rapid.IntRange(0, 3).Draw(t, "jitter2")}
 		runPlan(t, st, p)
 	})
@@ -679,12 +819,34 @@ func TestVerifC10RegressD11(t *testing.T) {
 	rapid.Check(t, func(t *rapid.T) {
 		st.Eval()
 		p := plan{entry: rapid.SampledFrom([]string{"MapReduce", "MapReduceChan"}).Draw(t, "entry"), nItems: rapid.IntRange(0, 10).Draw(t, "items"),
-			workers: rapid.IntRange(-1, 4).Draw(t, "workers"), fan: rapid.IntRange(0, 2).Draw(t, "fan"), genPanicAt: -1,
+			workers: rapid.IntRange(-1, 4).Draw(t, "workers"), fan: rapid.IntRange(0, 2).Draw(t, "fan"), genStallAt: -1, redEarlyAt: -1, genPanicAt: -1,
 			ctxMode: rapid.SampledFrom([]string{"preCancelled", "timeout"}).Draw(t, "ctx"), ctxDelayUs: rapid.IntRange(0, 50).Draw(t, "delayUs"),
 			mapFaults: [2]fault{{"none", 0}, {"none", 0}}, redFault: fault{"none", 0}, jitter: rapid.IntRange(0, 3).Draw(t, "jitter")}
 		// needs the caller to reach its select late: only the yield-instrumented binary produces that reliably
 		lang.VerifYieldConfig(rapid.Uint64Range(1, 1<<62).Draw(t, "yieldSeed"), 200, 300, 200)
 		defer lang.VerifYieldConfig(0, 0, 0, 0)
+		runPlan(t, st, p)
+	})
+}
+
+// Regression shapes of defect D22: a user function panics after the reducer has handed over its
+// output (a reducer that writes and then panics; a mapper that panics while a "first result wins"
+// reducer has already written): the call, which is still waiting for the reducer to finish, must
+// re-raise the panic and not return the value.
+func TestVerifC10RegressD22(t *testing.T) {
+	logx.Disable()
+	st := verifkit.New("regress-d22")
+	defer st.Flush()
+	rapid.Check(t, func(t *rapid.T) {
+		st.Eval()
+		p := plan{entry: "MapReduce", nItems: rapid.IntRange(2, 6).Draw(t, "items"), workers: rapid.IntRange(1, 4).Draw(t, "workers"), fan: 1,
+			genStallAt: -1, redEarlyAt: 0, redEarlyReturn: false, genPanicAt: -1, ctxMode: "none",
+			mapFaults: [2]fault{{"none", 0}, {"none", 0}}, redFault: fault{"none", 0}, jitter: rapid.IntRange(0, 3).Draw(t, "jitter")}
+		if rapid.Bool().Draw(t, "reducerPanics") {
+			p.redFault = fault{"panic", rapid.IntRange(0, 1).Draw(t, "at")}
+		} else {
+			p.mapFaults[0] = fault{"panic", p.nItems - 1}
+		}
 		runPlan(t, st, p)
 	})
 }
@@ -701,7 +863,7 @@ func TestVerifC10RegressPanicNotSwallowed(t *testing.T) {
 		st.Eval()
 		kind := rapid.SampledFrom([]string{"mapper", "reducer", "generator"}).Draw(t, "who")
 		p := plan{entry: rapid.SampledFrom([]string{"MapReduce", "MapReduceVoid"}).Draw(t, "entry"), nItems: rapid.IntRange(1, 3).Draw(t, "items"),
-			workers: rapid.IntRange(1, 3).Draw(t, "workers"), fan: 1, genPanicAt: -1, ctxMode: "none",
+			workers: rapid.IntRange(1, 3).Draw(t, "workers"), fan: 1, genStallAt: -1, redEarlyAt: -1, genPanicAt: -1, ctxMode: "none",
 			mapFaults: [2]fault{{"none", 0}, {"none", 0}}, redFault: fault{"none", 0}}
 		switch kind {
 		case "mapper":
